@@ -316,6 +316,9 @@ func neighbours(v gval, agg bool) []gval {
 		S(strings.ToValidUTF8(s+"\xff", "\uFFFD"))
 		S(s + "\xff")
 		S(s + "\xfe")
+		for _, x := range utf8Neighbours(s) { // c04utf8.go
+			S(x)
+		}
 		if len(s) > 0 {
 			S(s[:len(s)-1])
 			S(s[1:])
